@@ -217,7 +217,8 @@ NOT_APPLICABLE = {
 SESSION_TEXT = (' In addition spec/Session.tla (whole analysis sessions: column and event selections, RFI, MEF through the '
                 'function made by a real calibration, gates, copies) is model-checked; every history of <= 2 steps and simulated '
                 'longer ones are replayed and the real sample is projected and compared with the specification state after '
-                'every step; this check reports the mismatches attributed to its property.')
+                'every step; in the other direction randomly driven sessions of the real library (up to 14 steps) are recorded and '
+                'judged step by step by spec/trace/Trace_Session.tla; this check reports the mismatches attributed to its property.')
 RUNENV_TEXT = (' spec/RunEnv.tla models the file system around run() (current directory, look-alike plot folders, repeated '
                'runs); every history ending in a run is replayed on a real workbook.')
 PENDING_REASON = 'check not built yet in this round (planned, see DESIGN.md section 9); not claimed until its driver exists'
